@@ -796,6 +796,21 @@ func (h *harn) judge(c *kernel.Ctx, call *callRec, res result, retT time.Duratio
 			}
 		}
 	}
+	// (b') fallback nodes are consulted like primaries: all of them, in parallel. Once the fallback
+	// round has started, simulated time cannot pass without every fallback having been invoked - a
+	// hung or slow fallback must not keep a healthy one from being asked ("does not wait for slower
+	// or hung nodes").
+	if v.invokedF > 0 && v.invokedF < h.nF {
+		first := time.Duration(-1)
+		for i, iv := range call.invs {
+			if i >= h.nP && iv != nil && (first < 0 || iv.startT < first) {
+				first = iv.startT
+			}
+		}
+		if first >= 0 && retT > first {
+			c.Violate(prop, "b-fallback", "fallback-node-never-consulted-while-others-ran", "call%d (%s): the fallback round started at %v and the call returned %s at %v, but only %d of %d fallback nodes were ever consulted: %s", call.id, mn, first, rName[rk], retT, v.invokedF, h.nF, desc)
+		}
+	}
 	if v.invokedF > 0 {
 		verifrt.Probe("fallback-consulted")
 	}
